@@ -259,6 +259,14 @@ var _ = sort.Strings
 var _ = token.ADD
 
 var c06Witnesses = []Witness{
+	{Name: "dumptable-label-cut-scans-forward-without-bound", Rule: "R-PANIC", Doc: "seeded change C06-k: text handled inside an invariant-governed function is not governed by the table invariants, and s[i] on a string is an obligation", Edits: []Edit{
+		{File: "util.go", Old: "					res = res[:width-1] + \"…\"", New: "					cut := width - 1\n					for res[cut]&0xC0 == 0x80 {\n						cut++\n					}\n					res = res[:cut] + \"…\""}}},
+	{Name: "dumptable-label-cut-one-past-width", Rule: "R-PANIC", Edits: []Edit{
+		{File: "util.go", Old: "				if l := len(res); l > width {\n					res = res[:width-1] + \"…\"", New: "				if l := len(res); l >= width {\n					res = res[:width+1] + \"…\""}}},
+	{Name: "benign-dumptable-label-cut-scans-backward", Benign: true, Edits: []Edit{
+		{File: "util.go", Old: "					res = res[:width-1] + \"…\"", New: "					cut := width - 1\n					for cut > 0 && res[cut]&0xC0 == 0x80 {\n						cut--\n					}\n					res = res[:cut] + \"…\""}}},
+	{Name: "indent-pair-table-with-one-rune-entry", Rule: "R-PANIC", Edits: []Edit{
+		{File: "util.go", Old: "	for _, pair := range []string{\"[]\", \"()\"} {", New: "	for _, pair := range []string{\"[]\", \"()\", \"{\"} {"}}},
 	{Name: "parse-drops-lexer-error", Rule: "R-ERRDROP", Edits: []Edit{
 		{File: "parser.go", Old: "	err := p.lex()\n	if err != nil {\n		return nil, nil, err\n	}", New: "	err := p.lex()\n	if err != nil {\n		return nil, nil, nil\n	}"}}},
 	{Name: "evalbool-drops-eval-error", Rule: "R-ERRDROP", Edits: []Edit{
